@@ -73,6 +73,8 @@ def check(ctx, pcirc, mons, sweep, exc, replay, lossless=False):
         if Tm[k].size and (np.max(np.abs(Tm[k] - Tref)) > tol or np.max(np.abs(Tm[k] - T0[k])) > tol):
             ctx.violation("C10:disturbs", f"declaring monitors changes the external matrix at sweep point {k} by {np.max(np.abs(Tm[k] - T0[k])):.3e}", replay)
             return False
+        if exp_keys and not model_readout(ctx, conc, mons, exc, exp_keys, tab_a, Tm[k], names, k, tol, replay):
+            return False
         pin_tot = 0.0
         pout_tot = 0.0
         for (c, p) in exp_keys:
@@ -118,6 +120,47 @@ def check(ctx, pcirc, mons, sweep, exc, replay, lossless=False):
                     ctx.violation("C10:readout-remembers", f"monitor M{c}_{p} at sweep point {k} for the later excitation {sorted(exc2)} on the same solved model: "
                                   f"reported in/out {gi:.6f}/{go:.6f}, network solution {ai:.6f}/{bo:.6f}", replay)
                     return False
+    return True
+
+
+def model_readout(ctx, conc, mons, exc, exp_keys, tab_a, Tk, names, k, tol, replay):
+    """correspondence of the executable monitor path (`Monitor.solveMonitored`, Core/Monitor.lean: two elimination loops,
+    `intermediate`, `int_complete`, exact Gaussian rationals) with the running code: the same links are reported, with the
+    same entering / leaving waves, and the same external matrix"""
+    from fractions import Fraction
+    from common import cfrac_json
+
+    def to_c(v):
+        z = complex(v)
+        return (Fraction(z.real), Fraction(z.imag))
+    req = {"op": "monsolve", "mon": sorted(mons), "exc": [[nm, cfrac_json(to_c(v))] for nm, v in exc.items()]}
+    req.update(gen.circuit_json(conc))
+    ans = ctx.driver.ask(req)
+    if "links" not in ans:
+        if ans.get("err") == "singular":
+            ctx.tag("monitor-model:singular")
+            return True
+        ctx.disagreement("C10.model.monitor", f"model: {ans.get('err', ans)}, implementation returned a read-out", replay)
+        return False
+    ctx.tag("monitor-model:compared")
+    keys = [(int(b), q) for (a, p, b, q) in ans["links"]]
+    if set(keys) != set(exp_keys) or len(keys) != len(set(keys)):
+        ctx.disagreement("C10.model.monitor", f"model reports links {sorted(keys)}, implementation {sorted(exp_keys)}", replay)
+        return False
+    from common import parse_cfrac, cfrac_to_complex
+    for (c, p), wi, wo in zip(keys, ans["inward"], ans["outward"]):
+        mi, mo = cfrac_to_complex(parse_cfrac(wi)), cfrac_to_complex(parse_cfrac(wo))
+        gi, go = tab_a[f"M{c}_{p}_i"].iloc[k], tab_a[f"M{c}_{p}_o"].iloc[k]
+        if abs(gi - mi) > tol or abs(go - mo) > tol:
+            ctx.disagreement("C10.model.monitor", f"link M{c}_{p} at sweep point {k}: implementation {gi:.6f}/{go:.6f}, model {mi:.6f}/{mo:.6f}", replay)
+            return False
+    n = len(names)
+    if n:
+        flat = [z for row in ans["T"] for z in row]
+        Tmod = gen.json_mat_np(flat, n, n)
+        if np.max(np.abs(Tmod - Tk)) > tol:
+            ctx.disagreement("C10.model.monitor", f"external matrix with monitors: model and implementation differ at sweep point {k}", replay)
+            return False
     return True
 
 
